@@ -160,4 +160,78 @@ theorem seqBlocks_lengths {op : β → β → β} (hop : Assoc op) (ident : β)
     (seqBlocks op ident bs).map List.length = bs.map List.length := by
   rw [seqBlocks_eq_spec hop ident hid bs hne, specBlocks_lengths]
 
+/-! ### `rangeStep` -/
+
+theorem mem_rangeStep {a m d i : Nat} (hd : 0 < d) :
+    i ∈ rangeStep a m d ↔ ∃ k, i = a + k * d ∧ i < m := by
+  unfold rangeStep
+  simp only [List.mem_map, List.mem_range]
+  constructor
+  · rintro ⟨k, hk, rfl⟩
+    refine ⟨k, rfl, ?_⟩
+    have h1 : (k + 1) * d ≤ m - a + d - 1 := (Nat.le_div_iff_mul_le hd).mp hk
+    rw [Nat.add_mul] at h1
+    omega
+  · rintro ⟨k, rfl, hlt⟩
+    refine ⟨k, ?_, rfl⟩
+    apply (Nat.le_div_iff_mul_le hd).mpr
+    rw [Nat.succ_mul]
+    omega
+
+theorem nodup_rangeStep {a m d : Nat} (hd : 0 < d) : (rangeStep a m d).Nodup := by
+  unfold rangeStep
+  rw [List.nodup_iff_pairwise_ne]
+  refine List.Pairwise.map _ ?_ List.pairwise_lt_range
+  intro x y hxy h
+  have h2 : x * d < y * d := Nat.mul_lt_mul_of_pos_right hxy hd
+  omega
+
+/-! ### one level of combine steps acts in parallel -/
+
+theorem applyStep_length (op : β → β → β) (pv : List β) (s : Step) :
+    (applyStep op pv s).length = pv.length := by
+  unfold applyStep; split <;> simp
+
+theorem runSteps_length (op : β → β → β) (pv : List β) (steps : List Step) :
+    (runSteps op pv steps).length = pv.length := by
+  unfold runSteps
+  induction steps generalizing pv with
+  | nil => rfl
+  | cons s ss ih => simp only [List.foldl_cons]; rw [ih, applyStep_length]
+
+theorem getElem?_applyStep (op : β → β → β) (pv : List β) (i s : Nat) (hi : i < pv.length) (j : Nat) :
+    (applyStep op pv ⟨i, s⟩)[j]? = if j = i then oop op pv[i - s]? pv[i]? else pv[j]? := by
+  have h1 : pv[i]? = some pv[i] := List.getElem?_eq_getElem hi
+  have h2 : pv[i - s]? = some (pv[i - s]'(by omega)) := List.getElem?_eq_getElem (by omega)
+  unfold applyStep
+  simp only [h1, h2, oop, List.getElem?_set]
+  by_cases hji : j = i
+  · subst hji; simp [hi]
+  · have : ¬ i = j := fun h => hji h.symm
+    simp [hji, this]
+
+theorem runLevel (op : β → β → β) (s : Nat) (is : List Nat) (pv : List β)
+    (hnd : is.Nodup) (hlt : ∀ i ∈ is, i < pv.length) (hs : ∀ i ∈ is, i - s ∉ is) (j : Nat) :
+    (runSteps op pv (is.map (fun i => (⟨i, s⟩ : Step))))[j]?
+      = if j ∈ is then oop op pv[j - s]? pv[j]? else pv[j]? := by
+  induction is generalizing pv with
+  | nil => simp [runSteps]
+  | cons i is ih =>
+    have hi : i < pv.length := hlt i (by simp)
+    have hnd' := List.nodup_cons.mp hnd
+    simp only [List.map_cons, runSteps, List.foldl_cons]
+    have := ih (applyStep op pv ⟨i, s⟩) hnd'.2
+      (fun k hk => by rw [applyStep_length]; exact hlt k (by simp [hk]))
+      (fun k hk h => hs k (by simp [hk]) (by simp [h]))
+    simp only [runSteps] at this
+    rw [this]
+    by_cases hj : j ∈ is
+    · have hji : j ≠ i := fun h => hnd'.1 (h ▸ hj)
+      have hjs : j - s ≠ i := fun h => hs j (by simp [hj]) (by simp [h])
+      simp [hj, getElem?_applyStep op pv i s hi, hji, hjs]
+    · simp only [hj, if_false, getElem?_applyStep op pv i s hi, List.mem_cons, or_false]
+      by_cases hji : j = i
+      · subst hji; simp
+      · simp [hji]
+
 end Dask.Lemmas.Scan
